@@ -34,6 +34,8 @@ RULES = {
     "R20.3": "validator guards accept exactly the documented domain of every documented field and raise ValueError/TypeError",
     "R20.4": "`_target_` <-> class <-> Config round trip (the configuration-only and reload routes build the right classes)",
     "R20.5": "format precision >= 0 and no int() of a possibly infinite value, for every validator-admitted (gamma, epsilon) and convergence_test",
+    "R20.7": "every self.config.<field> read by a method that a concrete solver / problem class resolves to exists in that class's own Config (so the kwargs, config-only and reload routes all find it)",
+    "R20.8": "the four problem constructors and the solver accept `config` or keyword arguments the same way: self.config = config if given else self.Config(**kwargs)",
     "R20.6": "the 64-bit switch dominates every JAX array creation and the problem instantiation in Solver._setup_config; problem constructors do not create floating tables before a solver can enable it",
 }
 ASSUMPTIONS = [
@@ -693,6 +695,57 @@ def _int_marked(e) -> bool:
     return "int32" in s or "dtype=int" in s
 
 
+# =============================================================================== R20.7 / R20.8
+def _config_fields(ctx, col):
+    n = 0
+    for cls in ctx.solvers() + ctx.problems():
+        ca = ctx.ct.class_attr(cls, "Config")
+        cfg = ctx.ct.class_of_dotted(ctx.ct.resolve_name(ca[0].module, ast.unparse(ca[1]))) if ca else None
+        if cfg is None:
+            raise AnalysisError(f"anchor vanished: {cls.name}.Config")
+        fields = set(ctx.ct.all_fields(cfg))
+        bad = []
+        used = set()
+        for mname, (owner, fn) in ctx.ct.methods_of(cls).items():
+            for a in ast.walk(fn):
+                if isinstance(a, ast.Attribute) and isinstance(a.value, ast.Attribute) and is_self_attr(a.value, "config"):
+                    used.add(a.attr)
+                    if a.attr not in fields:
+                        bad.append((owner, fn, a))
+        n += 1
+        if bad:
+            for owner, fn, a in bad:
+                col.add("R20.7", f"{cls.name}:{owner.name}.{fn.name}", owner.module.relpath, a.lineno, False,
+                        f"`self.config.{a.attr}` is read by {owner.name}.{fn.name}, which {cls.name} resolves to, but {cfg.name} has no field `{a.attr}` "
+                        "(AttributeError / omegaconf error when this path runs)", text=f"config.{a.attr}")
+        else:
+            col.add("R20.7", cls.name, cls.module.relpath, cls.node.lineno, True,
+                    f"all {len(used)} config fields read through the MRO exist in {cfg.name}", text="config fields exist")
+    # R20.8 constructor protocol
+    for cls in ctx.problems():
+        r = ctx.ct.lookup(cls, "__init__")
+        owner, fn = r
+        ok = _config_or_kwargs(fn.body)
+        col.add("R20.8", f"{cls.name}.__init__", owner.module.relpath, fn.lineno, ok,
+                "self.config = config if config is not None else self.Config(**kwargs)" if ok else
+                "constructor does not follow the config-or-kwargs protocol of its siblings", text="config or kwargs")
+    sol = ctx.ct.get("Solver")
+    owner, fn = ctx.ct.require(sol, "_setup_config")
+    ok = _config_or_kwargs(fn.body)
+    col.add("R20.8", "Solver._setup_config", owner.module.relpath, fn.lineno, ok,
+            "self.config = config if config is not None else self.Config(**kwargs)" if ok else
+            "solver does not follow the config-or-kwargs protocol", text="config or kwargs")
+
+
+def _config_or_kwargs(body) -> bool:
+    for s in body:
+        if isinstance(s, ast.If) and ast.unparse(s.test) == "config is not None" and len(s.body) == 1 and len(s.orelse) == 1:
+            a, b = s.body[0], s.orelse[0]
+            return (isinstance(a, ast.Assign) and ast.unparse(a) == "self.config = config"
+                    and isinstance(b, ast.Assign) and ast.unparse(b) == "self.config = self.Config(**kwargs)")
+    return False
+
+
 # ===================================================================================
 class _Rename:
     def __init__(self, col, rule):
@@ -710,11 +763,23 @@ def run(ctx: Context, col) -> None:
     _none_belief(ctx, col)
     _validators(ctx, col)
     c10._targets(ctx, _Rename(col, "R20.4"))
-    _format_precision(ctx, col)
+    _config_fields(ctx, col)
     _x64(ctx, col)
+    try:
+        _format_precision(ctx, col)
+    except AnalysisError as e:
+        # an undecidable threshold is an analysis error - unless a structural rule above already
+        # explains it (e.g. a config field that does not exist), in which case report that
+        if not [f for f in col.failures() if f.rule in ("R20.1", "R20.7")]:
+            raise
+        col.notes.append(f"R20.5 not evaluated: {e}")
+        col.floors.pop("R20.5", None)
+    col.floor("R20.7", 9)
+    col.floor("R20.8", 5)
     col.floor("R20.1", 15)
     col.floor("R20.2", 5)
     col.floor("R20.3", 60)
     col.floor("R20.4", 9)
-    col.floor("R20.5", 8)
+    if not any("R20.5 not evaluated" in n for n in col.notes):
+        col.floor("R20.5", 8)
     col.floor("R20.6", 2)
